@@ -143,15 +143,19 @@ def do_call(w, call):
 
         m = w.models[call[1]]
         out = []
+        # policy_documents / all_statement_conditions walk `model_fields_set`, a Python set: the order of their results is the
+        # iteration order of that set (which a copy of the object need not share) and is not part of the result compared
         for name, r in m.Resources.items():
-            out.append((name, [c and common.jdump(tcanon(c)) for c in (r.all_statement_conditions if hasattr(r, "all_statement_conditions") else [])]))
+            out.append((name, sorted(str(c and common.jdump(tcanon(c))) for c in (r.all_statement_conditions if hasattr(r, "all_statement_conditions") else []))))
+        per_doc = []
         for name, d in docs_of(m):
             pd = d.policy_document
             try:
-                out.append((name, d.name, sorted(pd.get_allowed_actions()), sorted(pd.get_iam_actions()), sorted(str(p) for p in pd.allowed_principals_with(re.compile(".*"))),  # built from a set: its order is the hash seed's
+                per_doc.append((name, d.name, sorted(pd.get_allowed_actions()), sorted(pd.get_iam_actions()), sorted(str(p) for p in pd.allowed_principals_with(re.compile(".*"))),  # built from a set: its order is the hash seed's
                             len(pd.statements_with(re.compile(".*"))), [sorted(map(str, s.get_principal_list())) for s in pd.statement_as_list()]))
             except Exception as e:
-                out.append((name, "raises", common.exc_class(e)))
+                per_doc.append((name, "raises", common.exc_class(e)))
+        out += sorted(per_doc, key=common.jdump)
         return ("queries", common.jdump(out)), None
     if kind == "cond":
         c = w.conds[call[1]]
